@@ -181,6 +181,12 @@ type tracer struct {
 	cur     reply
 	gidOf   map[int64]int
 	twoCSR  bool
+	// second controllable point: registerSecret calls the package-level rotateTime first; when park is set the
+	// caller signals parkedCh there and waits for unparkCh (still holding generateMutex on the correct code)
+	park     bool
+	parkMode bool
+	parkedCh chan struct{}
+	unparkCh chan struct{}
 }
 
 func (h *tracer) log(e event) {
@@ -448,7 +454,19 @@ func runTrace(t *testing.T, seed uint64, forced []string) (res traceResult) {
 		} else if len(forced) > 0 {
 			ratio, jitter = float64(1+r.Intn(9))/10, 0
 		}
-		h := &tracer{entered: make(chan int64, 8), replyCh: make(chan reply), doneCh: make(chan int, 64), gidOf: map[int64]int{}}
+		h := &tracer{entered: make(chan int64, 8), replyCh: make(chan reply), doneCh: make(chan int, 64), gidOf: map[int64]int{},
+			parkedCh: make(chan struct{}), unparkCh: make(chan struct{})}
+		restore := cache.VerifWrapRotateTime(func() {
+			h.mu.Lock()
+			p := h.park
+			h.park = false
+			h.mu.Unlock()
+			if p {
+				h.parkedCh <- struct{}{}
+				<-h.unparkCh
+			}
+		})
+		defer restore()
 		opts := &security.Options{
 			ECCSigAlg: "ECDSA", ECCCurve: "P256", SecretTTL: time.Hour, TrustDomain: "cluster.local",
 			WorkloadNamespace: "default", ServiceAccount: "default",
@@ -482,6 +500,7 @@ func runTrace(t *testing.T, seed uint64, forced []string) (res traceResult) {
 			res.steps = append(res.steps, stepRec{term: term, evs: h.take()})
 		}
 		// wait until thread tid has reached a stable point; returns "done" | "csr" | "mutex"
+		var start func(resName string)
 		settle := func(tid int) string {
 			gid := gids[tid]
 			for {
@@ -493,7 +512,7 @@ func runTrace(t *testing.T, seed uint64, forced []string) (res traceResult) {
 					delete(waiters, d)
 				case g := <-h.entered:
 					who := h.gidOf[g]
-					if inCSR != 0 {
+					if inCSR != 0 && !h.parkMode {
 						h.twoCSR = true
 					}
 					inCSR = who
@@ -509,7 +528,7 @@ func runTrace(t *testing.T, seed uint64, forced []string) (res traceResult) {
 				}
 			}
 		}
-		start := func(resName string) {
+		start = func(resName string) {
 			nextT++
 			tid := nextT
 			gidCh := make(chan int64)
@@ -543,11 +562,38 @@ func runTrace(t *testing.T, seed uint64, forced []string) (res traceResult) {
 			}
 			emit(vlib.App("HStart", vlib.NI(tid), resTerm(resName)))
 		}
-		doReply := func(rep reply) {
+		doReply := func(rep reply, parkStarts int) {
 			holder := inCSR
 			nw := len(waiters)
+			var held []event
+			park := parkStarts > 0 && rep.kind == "ok"
+			if park {
+				h.mu.Lock()
+				h.park = true
+				h.mu.Unlock()
+			}
 			h.replyCh <- rep
-			inCSR = 0
+			if park {
+				// the holder is now inside registerSecret (CSR answered, nothing cached yet): callers started here
+				// must park on generateMutex and later be served the holder's pair from the cache
+				<-h.parkedCh
+				held = h.take()
+				h.parkMode = true
+				for i := 0; i < parkStarts; i++ {
+					name := security.WorkloadKeyCertResourceName
+					if r.Chance(35) {
+						name = security.RootCertReqResourceName
+					}
+					start(name)
+				}
+				h.parkMode = false
+				nw = len(waiters)
+				res.tags["reply:parked-in-registerSecret"] = true
+				h.unparkCh <- struct{}{}
+			}
+			if inCSR == holder {
+				inCSR = 0
+			}
 			// holder returns; then waiters either all return (cache hit) or one of them enters CSRSign
 			holderDone := false
 			next := 0
@@ -591,10 +637,12 @@ func runTrace(t *testing.T, seed uint64, forced []string) (res traceResult) {
 				if len(newRoots) == 0 {
 					newRoots = []int{rep.chainRt}
 				}
+				if resOf[holder] == security.RootCertReqResourceName {
+					res.hasRoot = true // a ROOTCA-triggered generation: emit the TraceAnn twin of this trace
+				}
 				if prevGenRoots != nil && fmt.Sprint(prevGenRoots) != fmt.Sprint(newRoots) {
 					res.tags["ca-root-changed"] = true
 					if resOf[holder] == security.RootCertReqResourceName {
-						res.hasRoot = true
 						res.tags["ca-root-changed-seen-by-rootca-request"] = true
 					}
 				}
@@ -611,7 +659,7 @@ func runTrace(t *testing.T, seed uint64, forced []string) (res traceResult) {
 					res.tags["reply:err-with-waiters"] = true
 				}
 			}
-			emit(vlib.App("HReply", o, vlib.Opt(next != 0, vlib.NI(next))))
+			res.steps = append(res.steps, stepRec{term: vlib.App("HReply", o, vlib.Opt(next != 0, vlib.NI(next))), evs: append(held, h.take()...)})
 		}
 		advance := func(d int64) {
 			time.Sleep(time.Duration(d))
@@ -753,14 +801,58 @@ func runTrace(t *testing.T, seed uint64, forced []string) (res traceResult) {
 					advance(safeAdvance(int64(1 + r.Intn(50_000_000))))
 				}
 			case op == "reply":
-				doReply(pickReply())
+				ps := 0
+				if !noConc && len(waiters) < 2 && r.Chance(30) {
+					ps = 1 + r.Intn(2)
+				}
+				doReply(pickReply(), ps)
 			case strings.HasPrefix(op, "reply-ok-roots="):
 				id, _ := strconv.Atoi(strings.TrimPrefix(op, "reply-ok-roots="))
-				doReply(reply{kind: "ok", ttl: time.Hour, bundle: []int{id}, chainRt: 1})
+				doReply(reply{kind: "ok", ttl: time.Hour, bundle: []int{id}, chainRt: 1}, 0)
 			case op == "reply-ok":
 				rep := pickReply()
 				rep.kind = "ok"
-				doReply(rep)
+				doReply(rep, 0)
+			case op == "reply-ok-park":
+				rep := pickReply()
+				rep.kind = "ok"
+				doReply(rep, 1+r.Intn(2))
+			case op == "reply-ok-newroots":
+				// the CA's roots change (disjoint from the previous ones)
+				rep := reply{kind: "ok", ttl: vlib.Pick(r, ttls), chainRt: 1}
+				used := map[int]bool{}
+				for _, x := range curRoots {
+					used[x] = true
+				}
+				for len(rep.bundle) == 0 {
+					for i := 1; i <= nRoots; i++ {
+						if !used[i] && r.Bool() {
+							rep.bundle = append(rep.bundle, i)
+						}
+					}
+				}
+				doReply(rep, 0)
+			case op == "invalidate":
+				if r.Bool() {
+					mx := int64(0)
+					for _, p := range pending {
+						if p.hi > mx {
+							mx = p.hi
+						}
+					}
+					if d := mx - time.Now().UnixNano(); d > 0 {
+						advance(d)
+					}
+				} else {
+					b := []int{1 + r.Intn(nRoots)}
+					if fmt.Sprint(b) == fmt.Sprint(curBundle) {
+						b = append(b, 1+r.Intn(nRoots))
+					}
+					curBundle = b
+					res.tags["bundle:changed"] = true
+					_ = sc.UpdateConfigTrustBundle(bundlePEM(b))
+					emit(vlib.App("HBundle", zlist(b)))
+				}
 			case op == "bundle-change":
 				b := []int{1 + r.Intn(nRoots)}
 				if fmt.Sprint(b) == fmt.Sprint(curBundle) {
@@ -860,7 +952,7 @@ func runTrace(t *testing.T, seed uint64, forced []string) (res traceResult) {
 			if guard > 3 {
 				rep.kind = "ok"
 			}
-			doReply(rep)
+			doReply(rep, 0)
 		}
 		wl, certRoot, tb := sc.VerifCacheState()
 		wterm := "None"
@@ -957,6 +1049,15 @@ func runRot(c *rotCase) {
 
 // ---------------------------------------------------------------- entry point
 
+const annBase = 1000000
+
+func annTerm(id int, tr traceResult) string {
+	steps := vlib.ListOf(tr.steps, func(s stepRec) string {
+		return vlib.Pair(s.term, vlib.ListOf(s.evs, func(e event) string { return e.term() }))
+	})
+	return vlib.App("TraceAnn", vlib.NI(id), steps)
+}
+
 const findingRoot = "root-change-seen-by-rootca-request-not-announced"
 
 func TestGen(t *testing.T) {
@@ -981,10 +1082,12 @@ func TestGen(t *testing.T) {
 		c.Add(vlib.Case{ID: id, Term: rotTerm("RotWitness", id, rc), Tags: []string{"rot-witness"}, Sample: rc})
 	}
 	id++
-	if c.Wanted(id) {
+	if c.Wanted(id) || c.Wanted(annBase+id) {
 		tr := runTrace(t, 1, []string{"fixed-cfg", "start-workload", "reply-ok-roots=1", "advance-rotate", "start-root", "reply-ok-roots=2", "start-workload"})
-		c.FindingOf[id] = findingRoot
 		c.Add(vlib.Case{ID: id, Term: traceTerm(id, tr), Tags: []string{"trace", "finding-reproducer"}, Sample: map[string]any{"kind": "trace", "steps": sampleSteps(tr)}})
+		c.FindingOf[annBase+id] = findingRoot
+		c.Add(vlib.Case{ID: annBase + id, Term: annTerm(annBase+id, tr), Tags: []string{"trace-ann", "finding-reproducer"}, Trivial: true,
+			Sample: map[string]any{"kind": "trace-ann", "steps": sampleSteps(tr)}})
 	}
 
 	// 2. rotateTime
@@ -1029,7 +1132,7 @@ func TestGen(t *testing.T) {
 	for i := 0; i < ntr; i++ {
 		id++
 		s := rs.SubSeed()
-		if !c.Wanted(id) {
+		if !c.Wanted(id) && !c.Wanted(annBase+id) {
 			continue
 		}
 		var tr traceResult
@@ -1038,6 +1141,16 @@ func TestGen(t *testing.T) {
 			// scenario family: a superseded certificate's rotation task comes due while a newer one is cached
 			script = []string{"start", "reply-ok", "advance-small", "bundle-change", "start", "reply-ok", "advance-first-due",
 				"start-workload", "reply-ok", "advance-first-due", "start", "reply-ok", "advance-far", "start-workload", "reply-ok"}
+		}
+		if i%6 == 2 {
+			// scenario family: the CA's roots change, the cache is invalidated, a ROOTCA request performs the renewal,
+			// then ROOTCA / default requests are served from the cache
+			script = []string{"start-workload", "reply-ok", "start-root", "invalidate", "start-root", "reply-ok-newroots",
+				"start-root", "start-workload", "start-root", "advance-small", "start-root", "invalidate", "start-workload", "reply-ok-newroots", "start-root"}
+		}
+		if i%6 == 4 {
+			// scenario family: callers arriving while the holder is between the CA answer and the cache update
+			script = []string{"start", "reply-ok-park", "start", "invalidate", "start", "reply-ok-park", "start-workload", "advance-small", "start-root"}
 		}
 		if pan, msg := vlib.Recover(func() { tr = runTrace(t, s, script) }); pan {
 			c.Violate(vlib.Violation{ID: id, Kind: "panic", Detail: msg, Case: map[string]any{"trace_seed": s}})
@@ -1049,14 +1162,20 @@ func TestGen(t *testing.T) {
 		}
 		tags := []string{"trace"}
 		if script != nil {
-			tags = append(tags, "scenario:stale-task")
+			tags = append(tags, []string{"", "", "scenario:root-change-rootca-first", "", "scenario:park-in-registerSecret", "scenario:stale-task"}[i%6])
 		}
 		for k := range tr.tags {
 			tags = append(tags, k)
 		}
 		if tr.hasRoot {
-			// candidate shape of the known finding; only the cases that actually fail are matched by the driver
-			c.FindingOf[id] = findingRoot
+			// the known finding's own condition (a ROOTCA-triggered generation saw changed CA roots and nothing was
+			// announced) is judged by a separate TraceAnn case; only that case is tagged, so the finding masks nothing else
+			aid := annBase + id
+			if c.Wanted(aid) {
+				c.FindingOf[aid] = findingRoot
+				c.Add(vlib.Case{ID: aid, Term: annTerm(aid, tr), Tags: []string{"trace-ann"}, Trivial: true,
+					Sample: map[string]any{"kind": "trace-ann", "trace_seed": s, "steps": sampleSteps(tr)}})
+			}
 		}
 		triv := !(tr.tags["start:blocked-on-mutex"] || tr.tags["rotation-fired"] || tr.tags["reply:err-with-waiters"] ||
 			tr.tags["reply:errsign"] || tr.tags["ca-root-changed"] || tr.tags["bundle:changed"])
